@@ -45,6 +45,9 @@ for _f in ('GraphBuilder._connect_nodes#node', 'GraphBuilder._connect_nodes#set'
 for _f in ('malt.pyct.static_analysis.reaching_definitions.Analyzer.visit_node', 'lemma.C06.rd_visit_node_refines_abstract'):
   SCRIPTS[_f] = ('bounded/rt_rd.py', ['0', 'quick'])
 
+SCRIPTS['malt.pyct.static_analysis.type_inference.Analyzer._update_closure_types'] = ('bounded/c19_types.py', ['1', 'quick'])
+SCRIPTS['malt.pyct.transpiler.PyToPy.transform_function'] = ('bounded/c10_cache.py', ['1', 'quick'])
+
 _cache = {}
 
 
